@@ -533,8 +533,10 @@ func (g *gen) qualifyImport(name, path string) string {
 	// TODO(light): This is depending on details of the current loader.
 	const vendorPart = "vendor/"
 	unvendored := path
-	if i := strings.LastIndex(path, vendorPart); i != -1 && (i == 0 || path[i-1] == '/') {
-		unvendored = path[i+len(vendorPart):]
+	if i := strings.LastIndex(path, "/"+vendorPart); i != -1 {
+		unvendored = path[i+1+len(vendorPart):]
+	} else if strings.HasPrefix(path, vendorPart) {
+		unvendored = path[len(vendorPart):]
 	}
 	if info, ok := g.imports[unvendored]; ok {
 		return info.name
